@@ -759,8 +759,9 @@ def _c19_variants(n):
                     out.append(("leaf", "i%d%s%s" % (int(z / 2), colon, ty)))
             except ValueError:
                 pass
-        if t[0] == "d" and t[2:] != "1.5":
-            out.append(("leaf", t[:2] + "1.5"))
+        if t[0] == "d" and t[2:] != "1.5=1.5":
+            out.append(("leaf", t[:2] + "1.5=1.5"))
+            out.append(("leaf", t[:2] + "0.0=0"))
         return out
     kids = n[1] if n[0] == "arr" else [x for _, x in n[1]]
     out.extend(kids)
@@ -793,10 +794,32 @@ def _c19_unhex(t):
     return "" if t == "-" else "".join(chr(int(h, 16)) for h in t.split(","))
 
 
+# reference spellings of fixed f32 literals inside the magnitude range of the finding below for
+# which the pinned dependency IS shortest (123456792f32, 2147483648f32, 2147483520f32,
+# 33554436f32): a disagreement on them is never the known finding
+C19_CLEAN_REFS = {"123456790", "2147483600", "2147483500", "33554436"}
+
+
+def _c19_sig(s):
+    m = s.lower().split("e")[0].replace(".", "").lstrip("-").lstrip("0")
+    return len(m.rstrip("0")) or 1
+
+
+def _c19_f32(x):
+    import struct
+    try:
+        return struct.unpack("f", struct.pack("f", x))[0]
+    except OverflowError:
+        return None
+
+
 def c19_known(case, impl, model, spec):
     """C19-lexical-not-shortest: implementation and model lines differ only in the spelling of
-    numbers built from float literals (hence possibly in EQ), the two spellings denote the same
-    double, and the model's (the reference: shortest, closest digits) is not longer."""
+    numbers built from float literals (hence possibly in EQ); each such pair denotes the same
+    float -- the same f64 of magnitude in [2^68, 2^97), or, in a case with f32 literals, the same
+    f32 of magnitude in [2^25, 2^48) -- and the implementation's spelling has MORE significant
+    digits than the model's (the reference: shortest digits); the reference spellings of the
+    fixed literals known to be spelt correctly are excluded."""
     a, b = impl.split(" "), model.split(" ")
     if len(a) != len(b) or impl.startswith(("COMPILE-ERROR", "RUN-ERROR")):
         return None
@@ -813,7 +836,11 @@ def c19_known(case, impl, model, spec):
             return None
         try:
             sx, sy = _c19_unhex(x[1:]), _c19_unhex(y[1:])
-            if float(sx) != float(sy) or len(sy) > len(sx):
+            fx, fy = float(sx), float(sy)
+            as64 = fx == fy and 2.0 ** 68 <= abs(fy) < 2.0 ** 97
+            as32 = ("f32=" in case and _c19_f32(fx) is not None and _c19_f32(fx) == _c19_f32(fy)
+                    and 2.0 ** 25 <= abs(fy) < 2.0 ** 48)
+            if not (as64 or as32) or _c19_sig(sx) <= _c19_sig(sy) or sy.lstrip("-") in C19_CLEAN_REFS:
                 return None
         except ValueError:
             return None
@@ -841,8 +868,16 @@ PROPS["C19"] = {
             "and i64::MIN / i64::MAX as scalar, array item and object value (part of every run); random part: nested "
             "documents of depth <= 4 / 5 and width <= 4 / 6 with repeated keys, integer literals (half unsuffixed i32 incl. its "
             "bounds, half with a suffix i8..i64 / u8..u64: MIN, MAX, MAX-1, MIN+1, 0, 1, the powers 2^7, 2^8, 2^15, 2^16, 2^31, "
-            "2^32, 2^63 and their predecessors, negated for signed types, and random values), float literals drawn "
-            "from eight classes of doubles and kept when the crate's spelling of the double is itself a float literal, "
+            "2^32, 2^63 and their predecessors, negated for signed types, and random values), float literals of ANY "
+            "spelling -- nine classes of doubles and singles written as {:?}, {:e}, {:E} with or without '+', fixed with "
+            "1-8 decimals, integral with and without '.0', or the reference spelling; unsuffixed, f64- or f32-suffixed; "
+            "each case line carries the literal and its reference spelling (std's shortest digits, even on exact ties, "
+            "of the f64 / f32 the literal's digits round to, in lexical's layout), computed without the crate under test "
+            "and cross-checked against the Coq reference; 62 fixed literals are part of every run (as array items and "
+            "object values): -0.0, 0.0, 5.0, -7.0, 2147483647.0, 2147483648.0, -2147483649.0, 1e10, 1e5, 1.50, 100.0, "
+            "1E3, 1e+3, 2.5e-3, 00.5, 01e2, 5e-324, 1.7976931348623157e308, 1.5f64, 3f64, -0f64, 123456792f32, "
+            "2147483648f32, 2147483520f32, 16777217f32, 33554436f32, 1e10f32, -0.0f32, -0f32, 3.4028235e38f32, 1e-45f32 ... "
+            "and four witnesses of known finding C19-lexical-not-shortest (2.675e21, 7.75e21, 1.1e10f32, 412390020f32), "
             "strings with quotes, backslashes, controls, U+2028, non-BMP characters. Observable per document: the value the "
             "macro built, the value Value::parse_str returns on the corresponding text, whether they are ==, and the text; "
             "the model column is expand(tokens d) (with the executable float-spelling reference), the parser model on text "
@@ -860,23 +895,32 @@ PROPS["C19"] = {
                 "type's range looking at the negation as a whole (-128i8 compiles, 128i8 does not); unsigned literals cannot be "
                 "negated; "
                 "std's From/TryFrom blanket impls; Object::from_vec keeps the vector's order",
-                "the spelling of a double (json-number -> lexical-core write_float, trim_floats, exponent 'e') is a dependency: a "
-                "universally quantified function fmt_f64 in the theorems, the executable reference Model/MacroFloat.lexical_f64 "
-                "(shortest round-trip digits, positional for decimal exponents -5..9, scientific otherwise) in the run",
+                "the spelling of a float (rustc's correctly rounded reading of the literal into f64 / f32, then json-number -> "
+                "lexical-core write_float, trim_floats, exponent 'e') is a dependency: a universally quantified function "
+                "fmt_float in the theorems, the executable reference Model/MacroFloat.lexical_float in the run (nearest f64 / "
+                "f32 of the literal's digits, shortest round-trip digits -- ties to even for f64, to the larger for f32, as "
+                "observed of lexical --, positional for decimal exponents -5..9, scientific otherwise; for f32 the printer of "
+                "Model/Serde.v whose round trip and totality are proved in Proofs/Float32Proofs.v / Float32Total.v)",
                 "the generated programs set #![recursion_limit = \"4096\"] (the muncher recurses once per token; fuel in the "
                 "model is existential)"],
     "assumptions": ["domain: integer literals `-`? digits suffix? within the range of their type -- i32 when unsuffixed, "
                     "otherwise the suffix, one of i8, i16, i32, i64, u8, u16, u32, u64 (the types with From<T> for Value; usize, "
-                    "isize, i128, u128 literals do not compile); the JSON text has no suffix; float literals common to Rust and JSON (no leading zero, a fraction or an "
-                    "exponent) that the crate re-spells as themselves (fmt_f64 s = Some s) -- e.g. 1.5, 0.1, 1e21, 1e-7 are in, "
-                    "100.0 (spelt 100) and 1.50 are out, and so is 2.675e21 (known finding: the dependency spells that double "
-                    "2.6750000000000003e21); the integer literal -0 (the i32 0, spelt 0) is out; strings/keys of "
+                    "isize, i128, u128 literals do not compile); the JSON text has no suffix; float literals of any spelling (digits, optional "
+                    "fraction, optional exponent e/E with optional sign, leading zeros allowed, optional suffix f32 / f64; plain "
+                    "digits only with a suffix) that do not overflow their type and do not denote a power of two lying exactly "
+                    "half-way between two equally short spellings (there the dependency breaks the tie its own way: the single "
+                    "2^-12 is spelt 0.00024414062, the reference says 0.00024414063; such floats are not generated): a float literal passes through its float type, so "
+                    "its JSON text is the spelling the float printer gives to that float (1.50 -> 1.5, 100.0 -> 100, 1e5 -> 100000, "
+                    "-0.0 -> -0, 123456792f32 -> 123456790); literals that are re-spelt as themselves (1.5, 0.1, 1e21, 1e-7) are "
+                    "the special case where that text is the literal text; where the dependency's spelling differs from the "
+                    "reference spelling (2.675e21 is stored as 2.6750000000000003e21) the check reports the known finding; the "
+                    "integer literal -0 (the i32 0, spelt 0) is out; strings/keys of "
                     "scalar values; keys written as a string literal, a parenthesised literal, a &str variable or a "
                     "parenthesised variable; a trailing comma only after at least one item"],
 }
 
 _m("C19", "Proved for EVERY document of the domain (arrays and objects nested to any depth, each with or without trailing comma, "
-          "string / integer (unsuffixed i32 or suffixed i8..i64, u8..u64, within the type's range) / re-spelt float / boolean / null "
+          "string / integer (unsuffixed i32 or suffixed i8..i64, u8..u64, within the type's range) / float of any spelling, f64 or f32 / boolean / null "
           "literals, negative numbers, literal, parenthesised and variable "
           "keys, duplicate keys): the rule model of json! -- the 41 rules of src/macros.rs in source order as a first-match "
           "rewriting system over token trees, with the leaf conversions -- expands the document's tokens to exactly the value the "
@@ -885,7 +929,9 @@ _m("C19", "Proved for EVERY document of the domain (arrays and objects nested to
           "it; hence macro value = parsed value. What is proved is about the RULE MODEL: rustc's macro_rules matcher (first "
           "matching rule wins, fragment classes) is a modelled contract, validated by compiling and running generated programs "
           "(sampled, since the quantifier is over programs).",
-   "The float spelling (lexical) is a universally quantified dependency in the theorems with an executable reference in the run. "
+   "A float literal passes through its float type: its JSON text is the spelling the float printer gives to the float it "
+   "denotes; that function (literal -> spelling; rustc's rounding + lexical) is a universally quantified dependency in the "
+   "theorems with an executable reference in the run. "
    "No axioms.",
    "Coq proof (accumulator invariants of the two token munchers by induction on the item list inside a nested induction on "
    "documents; text side by composition with C04/C08) + correspondence on compiled batches of generated json! programs "
